@@ -358,6 +358,10 @@ def music_text(toks, rng):
             need = False
             if prev[0] in ('B', 'CO') and s[0] in BARCH + ':':
                 need = True
+                # ... except an inline field directly after a bar / colon run (`|[K:G]`, `::[M:3/4]`): the bar pattern
+                # must leave the field's `[` alone (F-C04-5), so this juxtaposition is rendered without a space too
+                if re.match(r'\[[A-Za-z]:', s) and not (prev[0] == 'B' and prev[2].endswith('[') and not prev[3]):
+                    need = False
             if prev[0] == 'BR' and t[0] == 'BR':
                 need = True
             if prev[0] == 'B' and prev[2].endswith('[') and not prev[3]:
